@@ -113,10 +113,28 @@ def gen_track(rng, tid):
     return {'id': tid, 'kind': kind, 'wps': wps, 'allow': rng.random() < 0.5}
 
 
+def near_end(rng, total):
+    """a distance at the end of the track +- {1 ulp, 1e-9 .. 1e-5 relative, 1 mm, 1 m, 5 m}: the end is exact —
+    total_distance itself is inside, the next float is outside"""
+    kind = rng.choice(['ulp', 1e-9, 1e-7, 1e-6, 1e-5, '1mm', '1m', '5m'])
+    sign = rng.choice([1.0, 1.0, -1.0])
+    if kind == 'ulp':
+        return math.nextafter(total, math.inf if sign > 0 else -math.inf)
+    delta = {'1mm': 1e-3, '1m': 1.0, '5m': 5.0}.get(kind) or kind * total
+    return max(total + sign * delta, 0.0)
+
+
 def gen_queries(rng, index, nq):
     total = index[-1]
     qs = []
     big = max(total, 1000.0)
+    if total > 10.0:
+        for _ in range(3):
+            qs.append({'op': 'loc', 'd': near_end(rng, total), 'near_end': True})
+            target = near_end(rng, total)
+            a = rng.choice([0.0, total * rng.uniform(0.0, 1.0), rng.choice(index[:-1]), total])
+            if target >= a:
+                qs.append({'op': 'step', 'a': a, 'b': target - a, 'near_end': True})
     for _ in range(nq):
         r = rng.random()
         if r < 0.45:
@@ -463,9 +481,10 @@ def check_tracks(chk: Check, tracks):
         full = {'track': strip(trk), 'q': q, 'impl': io}
         target = q['d'] if q['op'] == 'loc' else q['a'] + q['b']
         inside = 0.0 <= target <= total
-        edge = abs(target - total) <= 1e-6 * max(1.0, total) and target != total
         chk.case({'track': strip(trk), 'q': q}, io[0] == 'pt' and (len(trk['wps']) > 2 or target > total or 0 < target < total))
         chk.count('q:' + q['op'] + ':' + io[0] + (':' + io[1] if io[0] == 'refused' else ''))
+        if q.get('near_end'):
+            chk.count('near-end:' + ('beyond' if target > total else 'at-or-inside') + ':' + io[0])
         # ---- property oracle ----
         bad = None
         if io[0] == 'error':
@@ -474,7 +493,7 @@ def check_tracks(chk: Check, tracks):
             if inside:
                 bad = (f'location({target!r}) inside the track refused ({io[1]})' if io[0] != 'pt'
                        else judge_point(geod, trk, cum, target, io, f'location({target!r})'))
-            elif io[0] == 'pt' and not edge:
+            elif io[0] == 'pt':
                 bad = f'location({target!r}) outside [0, {total!r}] answered'
         else:
             a, b = q['a'], q['b']
@@ -491,7 +510,7 @@ def check_tracks(chk: Check, tracks):
                         bad = f'step({a!r}, {b!r}) = {io} differs from location({target!r}) = {lo}'
                 elif not (io[1] == 'RCross' and len(trk['wps']) > 2 and not trk['allow']):
                     bad = f'step({a!r}, {b!r}) inside the track refused ({io[1]})'
-            elif not edge:
+            else:
                 if trk['allow']:
                     bad = (f'step({a!r}, {b!r}) past the end refused ({io[1]}) although overstepping is allowed'
                            if io[0] != 'pt' else judge_overstep(geod, trk, cum, target, io, f'step({a!r}, {b!r})'))
